@@ -821,6 +821,11 @@ theorem vecOk_refresh {v : Vec} (h : vecOk v = true) : vecOk (refreshVec v) = tr
   · exact elemOk_afterRead (h2 e0 he0)
   · exact h2 e0 he0
 
+theorem vecOk_refreshDef {v : Vec} (h : vecOk v = true) : vecOk (refreshDef v) = true := by
+  unfold refreshDef; split
+  · exact h
+  · exact vecOk_refresh h
+
 theorem renderNum_ok {fmt : Str} (hf : fmtOk fmt = true) {v : Value} (hv : valueOk .number v = true) :
     ∃ t, renderNum fmt v = .ok t := by
   cases v with
@@ -938,9 +943,9 @@ theorem sendDefs_msgs : ∀ (L : List (Nat × Nat)) (d : Device), DevOk d → L.
       have hdef : defOf d (gi, vi) = some m := by
         simp only [defOf, hg, Option.bind_some, pub, hm]
       simp only [hm, hdef, mergeRes]
-      have hv' : vecOk (if vecEnabled g v = true then refreshVec v else v) = true := by
+      have hv' : vecOk (if vecEnabled g v = true then refreshDef v else v) = true := by
         split
-        · exact vecOk_refresh hv
+        · exact vecOk_refreshDef hv
         · exact hv
       rw [sendDefs_msgs rest _ (devOk_setVec hd gi vi hv') hn.2]
       simp only [List.singleton_append, List.cons.injEq, true_and]
@@ -1936,6 +1941,26 @@ theorem vecGood_refresh_if {v : Vec} (h : VecGood v) (c : Bool) :
   · exact h
   · exact vecGood_refresh h
 
+theorem vecGood_refreshDef {v : Vec} (h : VecGood v) : VecGood (refreshDef v) := by
+  unfold refreshDef; split
+  · exact h
+  · exact vecGood_refresh h
+
+theorem vecGood_refreshDef_if {v : Vec} (h : VecGood v) (c : Bool) :
+    VecGood (if c then refreshDef v else v) := by
+  cases c
+  · exact h
+  · exact vecGood_refreshDef h
+
+theorem refreshVec_kind_if (v : Vec) (c : Bool) : (if c = true then refreshVec v else v).kind = v.kind := by
+  split <;> rfl
+
+theorem refreshDef_kind_if (v : Vec) (c : Bool) : (if c = true then refreshDef v else v).kind = v.kind := by
+  unfold refreshDef
+  split
+  · split <;> rfl
+  · rfl
+
 theorem elemOk_setValue {k : Kind} {e : Dev.Elem} (h : elemOk k e = true) {x : Value} (hx : valueOk k x = true) :
     elemOk k { e with value := x } = true := by
   simp only [elemOk, Bool.and_eq_true] at h ⊢
@@ -2175,16 +2200,17 @@ theorem announce_good (hnum : NumValid) {d : Device} (hd : DevGood d) (gi vi : N
     | ok dm =>
       simp only
       have hdmv := defMsg_readsBack hnum hv.1 hdm
-      have hv1 := vecGood_refresh_if hv (vecEnabled g v)
-      have hk1 : (if vecEnabled g v = true then refreshVec v else v).kind = v.kind := by split <;> rfl
-      cases hsm : setMsg d.name g (if vecEnabled g v = true then refreshVec v else v) with
+      have hv1 := vecGood_refreshDef_if hv (vecEnabled g v)
+      have hk1 : (if vecEnabled g v = true then refreshDef v else v).kind = v.kind := refreshDef_kind_if v _
+      cases hsm : setMsg d.name g (if vecEnabled g v = true then refreshDef v else v) with
       | error x =>
         refine ⟨?_, devGood_setVec hd _ _ hv1, kindAt_setVec hg hk1⟩
         intro m hm
         simp only [List.mem_singleton] at hm
         subst hm; exact hdmv
       | ok sm =>
-        refine ⟨?_, devGood_setVec hd _ _ hv1, kindAt_setVec hg hk1⟩
+        refine ⟨?_, devGood_setVec hd _ _ (vecGood_refresh_if hv1 _), kindAt_setVec hg ?_⟩
+        case refine_2 => exact (refreshVec_kind_if _ _).trans hk1
         intro m hm
         simp only [List.mem_cons] at hm
         rcases hm with rfl | hm
@@ -2280,8 +2306,8 @@ theorem sendDefs_good (hnum : NumValid) :
       | error x => exact resGood_same hd rfl rfl
       | ok dm =>
         simp only
-        have hv1 := vecGood_refresh_if hv (vecEnabled g v)
-        have hk1 : (if vecEnabled g v = true then refreshVec v else v).kind = v.kind := by split <;> rfl
+        have hv1 := vecGood_refreshDef_if hv (vecEnabled g v)
+        have hk1 : (if vecEnabled g v = true then refreshDef v else v).kind = v.kind := refreshDef_kind_if v _
         have hd1 := devGood_setVec hd gi vi hv1
         refine resGood_trans (a := { dev := _, msgs := [dm] }) ⟨?_, hd1, kindAt_setVec hg hk1⟩
           (sendDefs_good hnum rest hd1)
